@@ -475,7 +475,7 @@ def run_pool(cases, nworkers=16, give_up_after=40):
                     results[i] = dict(outcome='skipped', pulls=None, maxlen=None)
                     continue
                 results[i] = w.ask(cases[i])
-                if results[i]['outcome'] in ('timeout', 'worker-died') and not (
+                if results[i]['outcome'] in ('timeout', 'worker-died', 'MemoryError') and not (
                         cases[i].get('part') in ('S', 'E') and known_nested(cases[i])):
                     with lock:
                         bad[0] += 1
